@@ -33,11 +33,25 @@ def run(ctx):
     for i, ((w, sigs), p) in enumerate(zip(progs, pr)):
         if not p["ok"]:
             continue
-        for k in sorted(set([len(p["entries"]) // 2, len(p["entries"]) - 5, len(p["entries"]) - 1])):
+        ne = len(p["entries"])
+        pts = [(k, 0) for k in sorted(set([ne // 2, ne - 5, ne - 1]))]
+        # torn appends: the stop leaves a partial chunk behind the last complete one (inside a header, a payload, a footer)
+        end, app = 0, []
+        for k, (kind, off, ln) in enumerate(p["entries"]):
+            if kind == 1:
+                end = min(end, off)
+            if kind != 0:
+                continue
+            if off >= end and ln > 1 and k > 8:
+                app.append((k, ln))
+            end = max(end, off + ln)
+        for (k, ln) in ctx.rng.sample(app, min(len(app), 5)):
+            pts.append((k, ctx.rng.choice([1, min(8, ln - 1), ln // 2, ln - 1])))
+        for (k, j) in pts:
             if k <= 0:
                 continue
-            f2 = os.path.join(out, "rep%d_%d.jls" % (i, k))
-            scripts.append(";".join(w + ["wclose", "image %d 0" % k, "ropen", "rclose", "save " + f2])); files.append(f2); kinds.append("repaired")
+            f2 = os.path.join(out, "rep%d_%d_%d.jls" % (i, k, j))
+            scripts.append(";".join(w + ["wclose", "image %d %d" % (k, j), "ropen", "rclose", "save " + f2])); files.append(f2); kinds.append("repaired")
     scratch = os.path.join(ctx.tmp, "scratch_walk2")
     os.makedirs(scratch, exist_ok=True)
     impl = vlib.run_c("plain", "prog", scripts, args=[scratch, "timeout=60"], timeout=3000)
@@ -46,6 +60,14 @@ def run(ctx):
     nbad = 0
     for (s, f, k, a), v in zip(have, verdicts):
         ctx.count((k, s), nontrivial=True, sample={"kind": k, "walk": v[:160]})
+        # payload_prev_length of every chunk (also reported when another check fails first)
+        ppl_items = C05_walk.parse_ppl(v)
+        if ppl_items:
+            nbad += 1
+            if nbad <= 20:
+                ctx.violation("walk_%s_ppl_%d.txt" % (k, nbad), "script:\n%s\n\nwalk: %s\n" % (s, v),
+                              "%s file: payload_prev_length of a chunk does not equal the payload_length of the chunk before it (offset:tag:stored:expected:prev_empty) %s"
+                              % (k, " ".join("%d:%d:%d:%d:%d" % it for it in ppl_items)[:200]), sig=None)
         if not v.startswith("OK"):
             nbad += 1
             sig = ("repaired-nonconformant:" + (v.split() + ["?", "?"])[1]) if k == "repaired" else None
@@ -54,7 +76,7 @@ def run(ctx):
     ctx.cov["rule"] = ("writer programs (several sources/signals/types, annotations, UTC, user data, omission, 0..4 summary levels, empty signals) run on the implementation; "
                        "every produced file is walked by the extracted verified decoder (strict: every CRC, alignment, zero padding, file length, payload_prev_length, "
                        "every link, head table and index entry incl. timestamps, INDEX followed by SUMMARY) and its rebuilt definitions/samples/annotations/UTC/user data are "
-                       "compared with the library reader; also jls_copy outputs and files repaired on open; distinct = script")
+                       "compared with the library reader; also jls_copy outputs and files repaired on open (clean stops and stops inside an appended header / payload / footer); distinct = script")
     if ctx.tier == "thorough":
         vlib.coqchk(ctx, ["Properties_C05"])
     return vlib.finish(ctx, "proof", "make -C /verif/coq -f Makefile.coq Properties_C05.vo; coqc -Q . JLS Properties_C05.v",
